@@ -15,6 +15,7 @@
 #include "EbSystemResourceManager.h"
 #include "EbDefinitions.h"
 #include "EbThreads.h"
+#include "EbVerifHooks.h"
 
 static void svt_fifo_dctor(EbPtr p) {
     EbFifo *obj = (EbFifo *)p;
@@ -245,6 +246,7 @@ static EbErrorType svt_muxing_queue_assignation(EbMuxingQueue *queue_ptr) {
         // Get the next object
         svt_circular_buffer_pop_front(queue_ptr->object_queue, (void **)&wrapper_ptr);
 
+        SVT_VERIF_TRACE(SVT_VERIF_EV_ASSIGN, queue_ptr, process_fifo_ptr, wrapper_ptr, 0);
         // Block on the Process Fifo's Mutex
         svt_block_on_mutex(process_fifo_ptr->lockout_mutex);
 
@@ -258,6 +260,14 @@ static EbErrorType svt_muxing_queue_assignation(EbMuxingQueue *queue_ptr) {
         svt_post_semaphore(process_fifo_ptr->counting_semaphore);
     }
 
+#ifdef SVT_AV1_VERIF
+    if (queue_ptr->object_queue->current_count > queue_ptr->object_queue->buffer_total_count)
+        SVT_VERIF_TRACE(SVT_VERIF_EV_SRM_INVARIANT,
+                        queue_ptr,
+                        queue_ptr->object_queue->current_count,
+                        queue_ptr->object_queue->buffer_total_count,
+                        0);
+#endif
     return return_error;
 }
 
@@ -314,6 +324,7 @@ EbErrorType svt_object_release_enable(EbObjectWrapper *wrapper_ptr) {
     svt_block_on_mutex(wrapper_ptr->system_resource_ptr->empty_queue->lockout_mutex);
 
     wrapper_ptr->release_enable = EB_TRUE;
+    SVT_VERIF_TRACE(SVT_VERIF_EV_REL_ENABLE, wrapper_ptr->system_resource_ptr, wrapper_ptr, 1, 0);
 
     svt_release_mutex(wrapper_ptr->system_resource_ptr->empty_queue->lockout_mutex);
 
@@ -340,6 +351,7 @@ EbErrorType svt_object_release_disable(EbObjectWrapper *wrapper_ptr) {
     svt_block_on_mutex(wrapper_ptr->system_resource_ptr->empty_queue->lockout_mutex);
 
     wrapper_ptr->release_enable = EB_FALSE;
+    SVT_VERIF_TRACE(SVT_VERIF_EV_REL_ENABLE, wrapper_ptr->system_resource_ptr, wrapper_ptr, 0, 0);
 
     svt_release_mutex(wrapper_ptr->system_resource_ptr->empty_queue->lockout_mutex);
 
@@ -366,6 +378,11 @@ EbErrorType svt_object_inc_live_count(EbObjectWrapper *wrapper_ptr, uint32_t inc
     svt_block_on_mutex(wrapper_ptr->system_resource_ptr->empty_queue->lockout_mutex);
 
     wrapper_ptr->live_count += increment_number;
+    SVT_VERIF_TRACE(SVT_VERIF_EV_INC_LIVE,
+                    wrapper_ptr->system_resource_ptr,
+                    wrapper_ptr,
+                    increment_number,
+                    wrapper_ptr->live_count);
 
     svt_release_mutex(wrapper_ptr->system_resource_ptr->empty_queue->lockout_mutex);
 
@@ -482,6 +499,31 @@ EbErrorType svt_system_resource_ctor(EbSystemResource *resource_ptr, uint32_t ob
         resource_ptr->full_queue = (EbMuxingQueue *)NULL;
     }
 
+#ifdef SVT_AV1_VERIF
+    SVT_VERIF_TRACE(SVT_VERIF_EV_SRM_CTOR,
+                    resource_ptr,
+                    object_total_count,
+                    producer_process_total_count,
+                    consumer_process_total_count);
+    for (wrapper_index = 0; wrapper_index < resource_ptr->object_total_count; ++wrapper_index)
+        SVT_VERIF_TRACE(SVT_VERIF_EV_SRM_WRAPPER,
+                        resource_ptr,
+                        resource_ptr->wrapper_ptr_pool[wrapper_index],
+                        wrapper_index,
+                        0);
+    for (wrapper_index = 0; wrapper_index < producer_process_total_count; ++wrapper_index)
+        SVT_VERIF_TRACE(SVT_VERIF_EV_SRM_FIFO,
+                        resource_ptr,
+                        resource_ptr->empty_queue->process_fifo_ptr_array[wrapper_index],
+                        wrapper_index,
+                        0);
+    for (wrapper_index = 0; wrapper_index < consumer_process_total_count; ++wrapper_index)
+        SVT_VERIF_TRACE(SVT_VERIF_EV_SRM_FIFO,
+                        resource_ptr,
+                        resource_ptr->full_queue->process_fifo_ptr_array[wrapper_index],
+                        wrapper_index,
+                        1);
+#endif
     return return_error;
 }
 
@@ -500,6 +542,7 @@ EbErrorType svt_shutdown_process(const EbSystemResource *resource_ptr) {
     if (!resource_ptr || !resource_ptr->full_queue)
         return EB_ErrorNone;
 
+    SVT_VERIF_TRACE(SVT_VERIF_EV_SHUTDOWN, resource_ptr, 0, 0, 0);
     //notify all consumers we are shutting down
     for (unsigned int i = 0; i < resource_ptr->full_queue->process_total_count; i++) {
         EbFifo *fifo_ptr = svt_system_resource_get_consumer_fifo(resource_ptr, i);
@@ -544,6 +587,7 @@ EbErrorType svt_post_full_object(EbObjectWrapper *object_ptr) {
 
     svt_block_on_mutex(object_ptr->system_resource_ptr->full_queue->lockout_mutex);
 
+    SVT_VERIF_TRACE(SVT_VERIF_EV_POST_FULL, object_ptr->system_resource_ptr, object_ptr, 0, 0);
     svt_muxing_queue_object_push_back(object_ptr->system_resource_ptr->full_queue, object_ptr);
 
     svt_release_mutex(object_ptr->system_resource_ptr->full_queue->lockout_mutex);
@@ -566,6 +610,11 @@ EbErrorType svt_release_object(EbObjectWrapper *object_ptr) {
 
     svt_block_on_mutex(object_ptr->system_resource_ptr->empty_queue->lockout_mutex);
 
+    SVT_VERIF_TRACE(SVT_VERIF_EV_RELEASE,
+                    object_ptr->system_resource_ptr,
+                    object_ptr,
+                    object_ptr->live_count,
+                    (object_ptr->release_enable == EB_TRUE) && (object_ptr->live_count <= 1));
     // Decrement live_count
     object_ptr->live_count = (object_ptr->live_count == 0) ? object_ptr->live_count
                                                            : object_ptr->live_count - 1;
@@ -601,6 +650,7 @@ EbErrorType svt_release_object(EbObjectWrapper *object_ptr) {
 EbErrorType svt_get_empty_object(EbFifo *empty_fifo_ptr, EbObjectWrapper **wrapper_dbl_ptr) {
     EbErrorType return_error = EB_ErrorNone;
 
+    SVT_VERIF_TRACE(SVT_VERIF_EV_GET_EMPTY_CALL, empty_fifo_ptr, 0, 0, 0);
     // Queue the Fifo requesting the empty fifo
     svt_release_process(empty_fifo_ptr);
 
@@ -618,6 +668,7 @@ EbErrorType svt_get_empty_object(EbFifo *empty_fifo_ptr, EbObjectWrapper **wrapp
 
     // Object release enable
     (*wrapper_dbl_ptr)->release_enable = EB_TRUE;
+    SVT_VERIF_TRACE(SVT_VERIF_EV_GET_EMPTY_RET, empty_fifo_ptr, *wrapper_dbl_ptr, 0, 0);
 
     // Release Mutex
     svt_release_mutex(empty_fifo_ptr->lockout_mutex);
@@ -643,6 +694,7 @@ EbErrorType svt_get_empty_object(EbFifo *empty_fifo_ptr, EbObjectWrapper **wrapp
 EbErrorType svt_get_full_object(EbFifo *full_fifo_ptr, EbObjectWrapper **wrapper_dbl_ptr) {
     EbErrorType return_error = EB_ErrorNone;
 
+    SVT_VERIF_TRACE(SVT_VERIF_EV_GET_FULL_CALL, full_fifo_ptr, 1, 0, 0);
     // Queue the Fifo requesting the full fifo
     svt_release_process(full_fifo_ptr);
 
@@ -658,6 +710,7 @@ EbErrorType svt_get_full_object(EbFifo *full_fifo_ptr, EbObjectWrapper **wrapper
         *wrapper_dbl_ptr = NULL;
         return_error     = EB_NoErrorFifoShutdown;
     }
+    SVT_VERIF_TRACE(SVT_VERIF_EV_GET_FULL_RET, full_fifo_ptr, *wrapper_dbl_ptr, return_error, 0);
 
     // Release Mutex
     svt_release_mutex(full_fifo_ptr->lockout_mutex);
@@ -680,6 +733,7 @@ EbErrorType svt_get_full_object_non_blocking(EbFifo *          full_fifo_ptr,
                                              EbObjectWrapper **wrapper_dbl_ptr) {
     EbErrorType return_error = EB_ErrorNone;
     EbBool      fifo_empty;
+    SVT_VERIF_TRACE(SVT_VERIF_EV_GET_FULL_CALL, full_fifo_ptr, 0, 0, 0);
     // Queue the Fifo requesting the full fifo
     svt_release_process(full_fifo_ptr);
 
@@ -699,6 +753,8 @@ EbErrorType svt_get_full_object_non_blocking(EbFifo *          full_fifo_ptr,
         svt_get_full_object(full_fifo_ptr, wrapper_dbl_ptr);
     else
         *wrapper_dbl_ptr = (EbObjectWrapper *)NULL;
+    if (fifo_empty != EB_FALSE)
+        SVT_VERIF_TRACE(SVT_VERIF_EV_GET_FULL_RET, full_fifo_ptr, 0, 0, 1);
 
     return return_error;
 }
